@@ -18,6 +18,7 @@ package main
 import (
 	"fmt"
 	"os"
+	"path/filepath"
 
 	"verif/harness/internal/vlib"
 )
@@ -47,6 +48,7 @@ func childMain(role string, args []string) int {
 }
 
 func run(c *vlib.Ctx) error {
+	absoluteScratch(c)
 	switch c.Prop {
 	case "C46":
 		return runBundle(c)
@@ -62,7 +64,15 @@ func run(c *vlib.Ctx) error {
 	return fmt.Errorf("driver process does not serve property %s", c.Prop)
 }
 
+// absoluteScratch: children run with other working directories.
+func absoluteScratch(c *vlib.Ctx) {
+	if abs, err := filepath.Abs(c.Scratch); err == nil {
+		c.Scratch = abs
+	}
+}
+
 func replay(c *vlib.Ctx) error {
+	absoluteScratch(c)
 	switch c.Prop {
 	case "C46":
 		return replayBundle(c)
